@@ -11,7 +11,16 @@ RULE = ("programs = routing scenarios (two steps accepting the same type, target
 def emits(tr):
     """Normalise the three ways an event enters a run into one record kind (projection only)."""
     out = []
+    took = set()
     for r in tr:
+        if r["e"] == "tick" and "state" in r:
+            # an event that resolved a waiter (the reducer state says which) is taken, whether or not its step gets to
+            # return from wait_for_event before the run ends
+            for st_, ws in r["state"]["steps"].items():
+                for w in ws["waiters"]:
+                    if w.get("resolved") and (st_, w["resolved"]) not in took:
+                        took.add((st_, w["resolved"]))
+                        out.append({"e": "wait_took", "step": st_, "uid": w["resolved"], "seq": r["seq"], "run": r["run"], "t": r["t"]})
         if r["e"] == "send_int" and r["tick"]["k"] == "add":
             out.append({"e": "emit", "uid": r["tick"]["uid"], "ty": r["tick"]["ty"], "target": r["tick"]["target"],
                         "seq": r["seq"], "run": r["run"], "t": r["t"], "ext": False})
@@ -59,5 +68,5 @@ def run(chk):
     items += eg.collect(chk, ["wait"], paths_q=12, walks_q=3, paths_t=80, walks_t=20, max_ext=3)
     items2 = [(l, p, e, emits(tr), s) for (l, p, e, tr, s) in items]
     eg.conform_reducer(chk, items)
-    eg.standard_run(chk, "C02", None, {"emit", "step_start", "step_end", "wait_ret", "drained", "pub"}, extra=extra,
+    eg.standard_run(chk, "C02", None, {"emit", "step_start", "step_end", "wait_ret", "wait_took", "drained", "pub"}, extra=extra,
                     nontrivial=nontrivial, items=items2, conform=False)
